@@ -67,7 +67,8 @@ fn supervise(args: &[String]) -> i32 {
     let exe = std::env::current_exe().expect("current exe");
     let out = report::out_dir();
     let _ = std::fs::create_dir_all(format!("{out}/target"));
-    let journal = format!("{out}/target/journal-{id}.bin");
+    // one journal per supervising process, so two runs of the same check cannot truncate each other's file
+    let journal = format!("{out}/target/journal-{id}-{}.bin", std::process::id());
     let status = Command::new(&exe).args(&args[1..]).env("NVCHECK_CHILD", "1").env("NVCHECK_JOURNAL", &journal).status();
     let status = match status {
         Ok(s) => s,
@@ -78,6 +79,7 @@ fn supervise(args: &[String]) -> i32 {
     };
     if let Some(code) = status.code() {
         if (0..=2).contains(&code) {
+            let _ = std::fs::remove_file(&journal);
             return code;
         }
     }
